@@ -151,10 +151,19 @@ def _run(sim, case, r):
 
     reject_seg = case['fault'][1] if case['fault'] and case['fault'][0] == 'reject' else None
 
+    vms = case.get('validator_ms', 0)
+
     async def validator(name, sig):
+        if vms:
+            # (checking a segment may take longer than a retransmission timeout: that is no loss)
+            await asyncio.sleep(vms / 1000)
         if reject_seg is not None and bytes(name[-1]) == seg(reject_seg):
             return False
         return True
+    if case.get('falsy_validator'):
+        # a callable policy OBJECT that happens to be falsy (it has a __len__)
+        from ..sim.appsim import FalsyCallable
+        validator = FalsyCallable(validator)
 
     out, out2 = [], []
     box, box2 = {}, {}
@@ -310,6 +319,7 @@ def _case(draw):
             'version': draw(st.one_of(st.none(), st.sampled_from([0, 1, 255, 256, 2 ** 32]))), 'loss': loss, 'fault': fault,
             'twin': draw(st.sampled_from([None, None, 0, 1, 40, 60])),
             'empty_seg': draw(st.sampled_from([None, None, None, 0, 1, 2, 6])),
+            'validator_ms': draw(st.sampled_from([0, 0, 0, 30, 150, 600])), 'falsy_validator': draw(st.sampled_from([False, False, True])),
             'lp': draw(st.sampled_from([False, False, True])), 'ask_full': draw(st.sampled_from([False, False, True])),
             'name_form': draw(st.integers(0, 4)), 'validator_via': draw(st.sampled_from(['arg', 'arg', 'app'])),
             'timeout': draw(st.sampled_from([100, 100, 4000, 1000, 50])), 'latency_ms': draw(st.sampled_from([0, 0, 20, 150, 400]))}
